@@ -323,7 +323,11 @@ pub fn run_batch(engine: &dyn Engine, cfg: &BatchCfg) -> BatchResult {
               }
               if !out.violations.is_empty() {
                 // Stop early only for violations that are not known findings.
-                if out.violations.iter().any(|v| known.matches(v).is_none()) {
+                if out
+                  .violations
+                  .iter()
+                  .any(|v| v.property == cfg.property && known.matches(v).is_none())
+                {
                   stop.store(true, Ordering::Relaxed);
                 }
               }
